@@ -504,7 +504,7 @@ def c11_i7(ctx):
 def c11_i9(ctx):
     from core import natural_loops
 
-    fs = [f for f in ctx.prog.by_norm.values() if f.crate == "cfdp_daemon" and (f.root or f.norm).endswith("PDUTransport::pdu_handler") and f.kind == "Closure"]
+    fs = [f for f in ctx.prog.by_norm.values() if f.crate == "cfdp_daemon" and f.kind == "Closure" and ((f.root or f.norm).endswith("PDUTransport::pdu_handler") or (f.file.endswith("transport.rs") and f.coroutine))]
     if not fs:
         raise Anchor("C11-I9", "the coroutine body of PDUTransport::pdu_handler")
     n = 0
@@ -526,6 +526,17 @@ def c11_i9(ctx):
                 n += 1
                 heads = {h for h, bd, bk in loops if b in bd}
                 r = f.reachable(b, avoid=heads)
+                in_handler = (f.root or f.norm).endswith("PDUTransport::pdu_handler")
+                if not in_handler:
+                    # a helper the receive loop hands the result to: it must not report the receive error as its own
+                    # failure (the loop would propagate it with `?`)
+                    errs = [x for x in r if any(s2["k"] == "assign" and s2["place"]["local"] == 0 and not s2["place"]["proj"] and s2["rv"]["k"] == "agg" and s2["rv"].get("variant") == "Err" for s2 in f.blocks[x]["stmts"]) or (f.blocks[x]["term"]["k"] == "call" and (ctx.prog.callee_of(f.blocks[x]["term"])[0] or "").endswith("from_residual"))]
+                    key = "%s:receive-error-arm" % short(f.root or f.norm) + ("#%d" % n if n > 1 else "")
+                    if errs:
+                        yield bad("C11-I9", key, at(f, st["span"]["line"]), "the helper that takes the receive() result turns a receive error into an error of its own: the receive loop ends on one stray datagram")
+                    else:
+                        yield ok("C11-I9", key, at(f, st["span"]["line"]), "the receive error is logged and not propagated")
+                    continue
                 leak = [x for x in r if f.blocks[x]["term"]["k"] == "return" or any(s2["k"] == "assign" and s2["place"]["local"] == 0 and not s2["place"]["proj"] for s2 in f.blocks[x]["stmts"])]
                 key = "pdu_handler:receive-error-arm" + ("#%d" % n if n > 1 else "")
                 outer = [h for h, bd, bk in loops if b not in bd and b in f.reachable(h)]
